@@ -258,12 +258,12 @@ PROPS = {
     "C10": P("proof", ["encodings"], trusted_base=TB_CORR),
     "C11": P("proof", ["ipv4"], trusted_base=TB_CORR),
     "C12": P("proof", ["ipv6"], trusted_base=TB_CORR),
-    "C14": P("proof", ["percent"], trusted_base=TB_CORR),
+    "C14": P("proof", ["percent", "cpset"], trusted_base=TB_CORR),
     "C15": P("proof", ["urlenc"], trusted_base=TB_CORR),
     "C16": P("proof", ["usp"], trusted_base=TB_CORR, coq_files=["Properties_C16.v", "Properties_C16_compare.v"]),
     "C17": P("proof", ["filepath"], trusted_base=TB_CORR),
     "C04": {"level": "exploration", "streams": ["runtime:run_c04"], "trusted_base": TB_CORR,
-            "stream_names": ["buffer", "alias", "parse", "setters", "histories", "canparse", "encodings", "ipv4", "ipv6", "percent", "urlenc", "usp", "host", "filepath"]},
+            "stream_names": ["buffer", "alias", "aliasparse", "parse", "setters", "histories", "canparse", "encodings", "ipv4", "ipv6", "percent", "urlenc", "usp", "host", "filepath"]},
     "C18": {"level": "translation_validation", "streams": ["runtime:run_c18"], "trusted_base": TB_CORR,
             "stream_names": ["fmt", "parse", "reparse", "setters", "histories", "canparse", "encodings", "ipv4", "ipv6", "percent", "urlenc", "usp", "host", "filepath"]},
     "C19": {"level": "exploration", "streams": ["runtime:run_c19"], "proof_search": None,
